@@ -161,6 +161,22 @@ func (r *Runner) WaitListened(n int64) error {
 	return nil
 }
 
+// Behaviour is an error that describes what the service did (an unexpected answer, a wrong
+// number of responses), as opposed to the harness failing to bring a situation about: a
+// verdict, not an inconclusive run.
+type Behaviour string
+
+func (b Behaviour) Error() string { return string(b) }
+
+// Verdict turns an error of a harness helper into the message of the case: a Behaviour as
+// it is, anything else marked inconclusive.
+func Verdict(err error) string {
+	if _, ok := err.(Behaviour); ok || strings.HasPrefix(err.Error(), "VERIF-INCONCLUSIVE") {
+		return err.Error()
+	}
+	return "VERIF-INCONCLUSIVE: " + err.Error()
+}
+
 // QueryPassed returns how many query requests the query listeners have passed on to workers.
 func (r *Runner) QueryPassed() int64 {
 	r.mu.Lock()
